@@ -383,7 +383,9 @@ func (w *World) generic(rs reqSpec, r *Resp) {
 		// a client that went away mid-body never sees the status; what matters is the session state afterwards
 		excused := w.faultOverlapped(r) || w.closed || rs.abort
 		for _, rp := range rs.repos {
-			if w.tainted[rp] || w.inFlightEvict[rp] || w.pendingFault[rp] {
+			// (a session that expires or is evicted while a request on it is in flight ends that request with a 4xx:
+			// BLOB_UPLOAD_UNKNOWN. Until round 2 a 5xx was excused there, which hid a defect)
+			if w.tainted[rp] || w.pendingFault[rp] {
 				excused = true
 			}
 		}
@@ -395,7 +397,11 @@ func (w *World) generic(rs reqSpec, r *Resp) {
 			excused = true
 		}
 		if !excused {
-			x.viol([]string{"C15"}, "req.5xx-healthy", fmt.Sprintf("%s %s -> %d", rs.method, r.route, r.Code),
+			props := []string{"C15"}
+			if r.route == "upload" || r.route == "upload-post" {
+				props = []string{"C15", "C08"} // (a session that has ceased to exist refuses further use: a refusal is a 4xx)
+			}
+			x.viol(props, "req.5xx-healthy", fmt.Sprintf("%s %s -> %d", rs.method, r.route, r.Code),
 				fmt.Sprintf("%s %s?%s answered %d with healthy storage; body=%q", rs.method, rs.path, rs.query, r.Code, trunc(r.Body, 200)))
 		}
 	}
